@@ -18,6 +18,7 @@ import (
 	"fmt"
 	"os"
 	"strconv"
+	"testing"
 
 	"cosmossdk.io/math"
 	"github.com/cosmos/cosmos-sdk/codec"
@@ -82,6 +83,14 @@ type world struct {
 	hash    string // app hash of the prepared world (must be the same in every process)
 	height  int64
 	nfork   int64
+	// C09: the world driven on to the block before a hostile transaction, per stage and height class
+	prepared map[string]*preparedStage
+}
+
+type preparedStage struct {
+	e     *env.E2
+	res   string
+	stack string
 }
 
 // chain is one continuation of the world.
@@ -103,6 +112,22 @@ func metaOf(a *env.Account) valsettypes.MsgMetadata {
 	return valsettypes.MsgMetadata{Creator: a.Bech32(), Signers: []string{a.Bech32()}}
 }
 
+// every application that is kept alive for the life of the process (prepared worlds and stages); closed by TestMain
+var keepAlive []*env.E2
+
+func closeAll() {
+	for _, e := range keepAlive {
+		e.Close()
+	}
+	keepAlive = nil
+}
+
+func TestMain(m *testing.M) {
+	rc := m.Run()
+	closeAll()
+	os.Exit(rc)
+}
+
 // newWorld drives a fresh application to height `target` (>= 60).
 func newWorld(target int64) *world {
 	e := env.NewE2(env.E2Options{Seed: drv.Seed(), Powers: []int64{10, 10, 10, 10}, NumUsers: nUsers,
@@ -116,7 +141,8 @@ func newWorld(target int64) *world {
 			}
 			gs[banktypes.ModuleName] = cdc.MustMarshalJSON(&bg)
 		}})
-	w := &world{base: e}
+	keepAlive = append(keepAlive, e)
+	w := &world{base: e, prepared: map[string]*preparedStage{}}
 	for i := 0; i < nVals; i++ {
 		k, err := crypto.ToECDSA(crypto.Keccak256([]byte(fmt.Sprintf("verif-chainhistory-eth-%d-%d", drv.Seed(), i))))
 		must(err)
